@@ -35,3 +35,154 @@ Print Assumptions C05_no_dead_reachable.
 Theorem C05_example : WF ex_snap /\ rc_exact_b ex_snap nil = true /\ no_dead_b ex_snap = true.
 Proof. exact (conj ex_snap_WF (conj ex_snap_rc_exact_b ex_snap_no_dead_b)). Qed.
 Print Assumptions C05_example.
+
+(** ** state-machine theorems (interleaving model Mgr/Conc.v, whole collection Mgr/ConcGc.v;
+       proved in Mgr/ConcProofs.v, ConcSem.v, ConcGcProofs.v).  [CInv] is spelled out by
+       C07_inv_def in Props/C07.v: keys distinct, every stored node passes node_pre_b,
+       per-level uniqueness, owned edges valid, crc = owners + parents.  For ZBDDs the
+       manager's tautology chain is an owner like any other: its edges are tokens of a
+       pseudo-thread in [cown]. *)
+From Coq Require Import PArith Bool Arith.
+From OxiVerif Require Import Mgr.Conc Mgr.ConcBase Mgr.ConcProofs Mgr.ConcSnap Mgr.ConcSem
+  Mgr.ConcExamples Mgr.ConcGc Mgr.ConcGcProofs Mgr.ConcGcExamples.
+Import ListNotations.
+
+(* counts are exact (and the table well-formed) after ANY schedule of any threads *)
+Theorem C05_sm_counts_exact_any_history : forall k terms nl sched s,
+  terms_unique_b terms = true -> run k terms nl cempty sched = Some s ->
+  WF (to_snap k terms nl s) /\ rc_exact_b (to_snap k terms nl s) [] = true.
+Proof. exact run_counts_exact. Qed.
+Print Assumptions C05_sm_counts_exact_any_history.
+
+(* a stored node disappears only when neither a handle nor another stored node refers to it *)
+Theorem C05_sm_gc_only_unreferenced : forall k terms nl s id s' r, CInv k terms nl s ->
+  step k terms nl s (AGcNode id) = Some (s', r) ->
+  owners (cown s) id = 0 /\ parents (cn s) id = 0 /\
+  (forall o, In o (cown s) -> eref (snd o) <> RN id) /\
+  (forall j nd e, cfind (cn s) j = Some nd -> In e (cch nd) -> eref e <> RN id) /\
+  cfind (cn s') id = None.
+Proof. exact gc_safe. Qed.
+Print Assumptions C05_sm_gc_only_unreferenced.
+
+(* no other action removes or alters a node that is in use *)
+Theorem C05_sm_in_use_kept : forall k terms nl s a s' r id nd, CInv k terms nl s ->
+  step k terms nl s a = Some (s', r) ->
+  cfind (cn s) id = Some nd -> crc nd <> 0%N ->
+  exists nd', cfind (cn s') id = Some nd' /\ cl nd' = cl nd /\ cch nd' = cch nd.
+Proof. exact step_frame. Qed.
+Print Assumptions C05_sm_in_use_kept.
+
+Theorem C05_sm_release_never_underflows : forall k terms nl s tid e id, CInv k terms nl s ->
+  In (tid, e) (cown s) -> eref e = RN id ->
+  exists nd s', cfind (cn s) id = Some nd /\ crc nd <> 0%N /\
+                step k terms nl s (ARelease tid e) = Some (s', None) /\
+                exists nd', cfind (cn s') id = Some nd' /\ crc nd' = N.pred (crc nd).
+Proof. exact release_safe. Qed.
+Print Assumptions C05_sm_release_never_underflows.
+
+(* every edge in use denotes the same function before and after any single action *)
+Theorem C05_sm_handles_keep_function : forall k terms nl s a s' r e c, CInv k terms nl s ->
+  step k terms nl s a = Some (s', r) ->
+  (forall id, eref e = RN id -> exists nd, cfind (cn s) id = Some nd /\ crc nd <> 0%N) ->
+  sem_edge (to_snap k terms nl s') e c = sem_edge (to_snap k terms nl s) e c.
+Proof. exact step_sem_preserved. Qed.
+Print Assumptions C05_sm_handles_keep_function.
+
+(* (a) a whole collection (Manager::gc: levels top-down, per level every entry whose count
+   is 0 when visited) is a schedule of collector actions of the model *)
+Theorem C05_sm_collect_is_schedule : forall k terms nl s,
+  run k terms nl s (collect_sched k terms nl s) = Some (collect k terms nl s) /\
+  forall a, In a (collect_sched k terms nl s) -> exists id, a = AGcNode id.
+Proof. exact collect_is_run. Qed.
+Print Assumptions C05_sm_collect_is_schedule.
+
+Theorem C05_sm_collect_wf : forall k terms nl s, CInv k terms nl s -> terms_unique_b terms = true ->
+  CInv k terms nl (collect k terms nl s) /\ WF (to_snap k terms nl (collect k terms nl s)) /\
+  rc_exact_b (to_snap k terms nl (collect k terms nl s)) [] = true.
+Proof. exact collect_wf. Qed.
+Print Assumptions C05_sm_collect_wf.
+
+(* (b) the collection frees EXACTLY the unreferenced nodes: a node is stored afterwards iff
+   it was stored before and is reachable from an owned edge; survivors keep level and children *)
+Theorem C05_sm_collect_exact : forall k terms nl s id, CInv k terms nl s ->
+  ((exists nd', cfind (cn (collect k terms nl s)) id = Some nd') <->
+   (exists nd, cfind (cn s) id = Some nd) /\
+   (exists o, In o (cown s) /\ creach (cn s) (eref (snd o)) (RN id))) /\
+  (forall nd', cfind (cn (collect k terms nl s)) id = Some nd' ->
+     exists nd, cfind (cn s) id = Some nd /\ cl nd' = cl nd /\ cch nd' = cch nd).
+Proof. exact collect_exact. Qed.
+Print Assumptions C05_sm_collect_exact.
+
+(* the executable reachability test decides "reachable from an owned edge" *)
+Theorem C05_sm_reach_checker : forall k terms nl s id, CInv k terms nl s ->
+  (reach_own_b nl s id = true <->
+   exists o, In o (cown s) /\ creach (cn s) (eref (snd o)) (RN id)).
+Proof. exact reach_own_b_spec. Qed.
+Print Assumptions C05_sm_reach_checker.
+
+(* (c) all owner tokens are unchanged and every owned edge denotes the same function *)
+Theorem C05_sm_collect_keeps : forall k terms nl s, CInv k terms nl s ->
+  cown (collect k terms nl s) = cown s /\
+  forall tid e c, In (tid, e) (cown s) ->
+    sem_edge (to_snap k terms nl (collect k terms nl s)) e c = sem_edge (to_snap k terms nl s) e c.
+Proof. exact collect_keeps. Qed.
+Print Assumptions C05_sm_collect_keeps.
+
+(* (d) no node with count 0 is left *)
+Theorem C05_sm_collect_no_dead : forall k terms nl s, CInv k terms nl s ->
+  forall j nd, cfind (cn (collect k terms nl s)) j = Some nd -> crc nd <> 0%N.
+Proof. exact collect_no_dead. Qed.
+Print Assumptions C05_sm_collect_no_dead.
+
+Theorem C05_sm_collect_no_dead_b : forall k terms nl s, CInv k terms nl s ->
+  no_dead_b (to_snap k terms nl (collect k terms nl s)) = true.
+Proof. exact collect_no_dead_b. Qed.
+Print Assumptions C05_sm_collect_no_dead_b.
+
+(* (e) all handles dropped: the collection returns the manager to its initial, empty state *)
+Theorem C05_sm_collect_all_dropped : forall k terms nl s, CInv k terms nl s -> cown s = [] ->
+  collect k terms nl s = cempty.
+Proof. exact collect_all_dropped. Qed.
+Print Assumptions C05_sm_collect_all_dropped.
+
+(* (f) idempotence; a collection is a no-op iff there is nothing to free *)
+Theorem C05_sm_collect_idem : forall k terms nl s, CInv k terms nl s ->
+  collect k terms nl (collect k terms nl s) = collect k terms nl s.
+Proof. exact collect_idem. Qed.
+Print Assumptions C05_sm_collect_idem.
+
+Theorem C05_sm_collect_noop_iff : forall k terms nl s, CInv k terms nl s ->
+  (collect k terms nl s = s <-> forall j nd, cfind (cn s) j = Some nd -> crc nd <> 0%N).
+Proof. exact collect_noop_iff. Qed.
+Print Assumptions C05_sm_collect_noop_iff.
+
+(* histories: actions of any threads interleaved with whole collections at arbitrary points *)
+Theorem C05_sm_history_counts_exact : forall k terms nl hist s, terms_unique_b terms = true ->
+  hrun k terms nl cempty hist = Some s ->
+  CInv k terms nl s /\ WF (to_snap k terms nl s) /\ rc_exact_b (to_snap k terms nl s) [] = true.
+Proof. exact history_counts_exact. Qed.
+Print Assumptions C05_sm_history_counts_exact.
+
+(* a handle that is held (by some thread, in every state of the history) denotes at the end
+   what it denoted when it was obtained *)
+Theorem C05_sm_history_sem : forall k terms nl hist s s' e c, CInv k terms nl s ->
+  hrun k terms nl s hist = Some s' -> held_through k terms nl s hist e ->
+  sem_edge (to_snap k terms nl s') e c = sem_edge (to_snap k terms nl s) e c.
+Proof. exact history_sem. Qed.
+Print Assumptions C05_sm_history_sem.
+
+(* non-vacuity: a reachable state with a dead chain of two nodes on different levels (node 3
+   on level 0 unreferenced, node 1 on level 1 referenced only by node 3) and one live node;
+   the collection removes exactly the chain; sweeping bottom-up would not *)
+Theorem C05_sm_example :
+  CInv KBdd ex_terms 2 gc_ex /\
+  collect KBdd ex_terms 2 gc_ex = gc_ex_after /\
+  collect_sched KBdd ex_terms 2 gc_ex = [AGcNode 3; AGcNode 1] /\
+  (reach_own_b 2 gc_ex 2 = true /\ reach_own_b 2 gc_ex 1 = false /\ reach_own_b 2 gc_ex 3 = false) /\
+  hrun KBdd ex_terms 2 gc_ex [HCollect; HAct (ARelease 1 (E 2)); HCollect] = Some cempty /\
+  held_through KBdd ex_terms 2 gc_ex gc_hist (E 2).
+Proof.
+  exact (conj gc_ex_inv (conj gc_ex_collect (conj gc_ex_sched (conj gc_ex_reach
+          (conj gc_ex_all_dropped gc_hist_held))))).
+Qed.
+Print Assumptions C05_sm_example.
